@@ -3,7 +3,7 @@ import os, json, ast, inspect
 import cybuild, framework
 
 TITLE = "Compiled functions report faithful names and signatures"
-EXTRACTS = ["ExprPrint", "CodeDescr"]
+EXTRACTS = ["ExprPrint", "CodeDescr", "ArgList"]
 RULE = ("random default-value expression trees (names, negative/hex/float/imaginary numbers, str/bytes with escapes, "
         "unary/binary/**/comparison chains/and/or/not/conditional/lambda, tuple/list/set/dict displays, attribute/subscript/"
         "call), every operator shape pair and a hand-written list, each placed as a default in module, method, nested and "
@@ -14,7 +14,16 @@ RULE = ("random default-value expression trees (names, negative/hex/float/imagin
         "nested and in cdef classes - cpdef, generator expressions, auto-generated pickle helpers) in which the function "
         "holding the module-wide maximum of each description field (argcount, posonly, kwonly, nlocals, first line) is of "
         "each kind in turn, at values 2^k-1, 2^k, 2^k+1, with random *args/**kwargs, default suffixes and keyword-only "
-        "default subsets; distinct by (module, function)")
+        "default subsets; distinct by (module, function); "
+        "embedded-signature layout (props/C25_arglist.py): signature shapes enumerated over positional-only 0..2 x "
+        "positional-or-keyword 0..2 x (no star | bare * | *args) x keyword-only 0..2 x (**kwargs or not), self positional-only "
+        "or not, defaults on suffixes / keyword-only subsets, annotations, return annotation and docstring (none / one "
+        "line / indented multi-line) rotating, for def functions, methods, class/static methods of Python and cdef classes, "
+        "__init__ of both, cpdef functions and methods, cdef-class properties, under each embedsignature.format (c, python, "
+        "clinic): EVERY shape through EmbedSignature._fmt_arglist/_fmt_signature on synthetic argument nodes (with and "
+        "without hide_self), and through generated modules whose docstrings are read from the generated C (quick: every "
+        "shape once per format on rotating hosts; thorough: every shape on every host) and, for gcc-built modules, at "
+        "run time (__doc__, __text_signature__, inspect.signature); distinct by (format, host, shape)")
 EXPLANATION = ("theorems: for every well-formed expression tree the repaired ExpressionWriter's token list is read back to the "
                "same tree by an independent recursive-descent reader of Python's expression grammar (any sufficient fuel); the "
                "generated precedence table equals Python's documented levels (finite); the current printer is refuted by "
@@ -25,19 +34,35 @@ EXPLANATION = ("theorems: for every well-formed expression tree the repaired Exp
                "generator expressions alone left out of the argument maxima), also as a packed bit string, and "
                "inspect._signature_from_function applied to the resulting code object, __defaults__ and __kwdefaults__ "
                "returns exactly the declared parameter list (names, kinds, defaults); the variant that leaves all "
-               "generators out of the maxima is refuted. "
+               "generators out of the maxima is refuted; "
+               "for every source signature (any numbers of positional-only / positional-or-keyword / keyword-only "
+               "parameters, *args, **kwargs) the token list EmbedSignature._fmt_arglist builds (arguments, then the star "
+               "marker inserted at npargs+npoargs, then '/' at npoargs, then **kwargs) equals the canonical rendering "
+               "(inspect.Signature.__str__ layout) and is read back by the Python parameter-list grammar as exactly the "
+               "source parameters (names, order, kinds); the variant inserting '/' first with the same indices is refuted "
+               "by witness; with a hidden self (format c constructor line) the code as it is is refuted (markers one slot "
+               "late) and proved on the complement (self not positional-only, no keyword-only parameters), the repaired "
+               "variant is proved for all signatures. "
                "partial: tokenisation of the rendered text and str/bytes repr are tested against CPython (ast, repr), "
                "not proved; slices, keyword/star call arguments, comprehensions, f-strings and annotations are only "
                "compared differentially; CythonFunction.c getters and the C bit-field / PyCode_New layer are differential "
                "only (struct widths and initialisers are read from the generated C and compared with the model; code "
-               "object fields, signature, defaults are compared model / compiled module / CPython).")
+               "object fields, signature, defaults are compared model / compiled module / CPython); the text of one "
+               "formatted argument (_fmt_arg: annotation / default / C type per format), the Class. prefix, $self/$type, "
+               "the return annotation and the docstring merge (_embed_signature, inspect.cleandoc) are abstract in the "
+               "layout model and compared differentially (generated C docstring / run time vs CPython's parser on the "
+               "source header).")
 TRUSTED = ["CPython ast.parse / inspect.signature / repr as oracles",
            "the lexical layer: rendered text -> tokens (names are identifiers, number texts are literals)",
            "str.isprintable for code points >= 256 (generator uses known printable ones)",
            "ConstantFolding/parser deliver the tree the generator intends (checked through the printed text itself)",
            "C semantics of unsigned bit-fields (value mod 2^width) and gcc's struct layout; PyCode_NewWithPosOnlyArgs",
            "inspect._signature_from_function of CPython 3.12 as transcribed in M_CodeDescr.sig_of_code "
-           "(Signature validation errors not modelled)"]
+           "(Signature validation errors not modelled)",
+           "Python list.insert(i, x) = firstn i ++ x :: skipn i for i >= 0 (M_ArgList.insert); the Python parameter-list "
+           "grammar as transcribed in M_ArgList.read_sig (compared with CPython's parser on every generated skeleton)",
+           "docstrings are read from PyDoc_STRVAR / PyDoc_STR literals of the generated C (checked against __doc__ at run "
+           "time for the gcc-built modules)"]
 ASSUMPTIONS = ["CPython 3.12 qualname rule (PEP 709 inlined comprehensions) as the language rule",
                "lambda/genexpr __name__ are outside the property (def functions)"]
 
@@ -744,11 +769,29 @@ def run(ctx):
         except Exception:
             coW["error"] = "worker raised: " + traceback.format_exc()[-1500:]
     ct = threading.Thread(target=co_thread)
-    if os.environ.get("C25_NO_CODEOBJ") != "1":      # development switch (timing of the other parts only)
+    only = os.environ.get("C25_ONLY", "")            # development switch: C25_ONLY=arglist|codeobj|main runs one part
+    if os.environ.get("C25_NO_CODEOBJ") != "1" and only in ("", "codeobj"):      # development switch (timing of the other parts only)
         ct.start()
+    # layout of the embedded parameter list (props/C25_arglist.py): same arrangement
+    from props import C25_arglist as arglist
+    alW = {}
+    amodel = ctx.model("arglist")
+
+    def al_thread():
+        try:
+            alW.update(arglist.work(ctx.tier, ctx.seed, ctx.workdir, amodel))
+        except Exception:
+            alW["error"] = "worker raised: " + traceback.format_exc()[-1500:]
+    at = threading.Thread(target=al_thread)
+    if only in ("", "arglist"):
+        at.start()
     try:
-        run_main(ctx)
+        if only in ("", "main"):
+            run_main(ctx)
     finally:
+        if at.ident is not None:
+            at.join()
+            arglist.account(ctx, alW)
         if ct.ident is not None:
             ct.join()
             codeobj.account(ctx, coW)
